@@ -1,17 +1,25 @@
 #!/bin/bash
 # selftest/benign.sh: property-preserving changes must not raise an alarm (false-alarm canaries).
+# env: ONLY=<prefix of patch name>  PROPS="C01 ..."  JOBS=<parallel patches, default 8>
 cd "$(dirname "$0")/.."
 export GOFLAGS=-mod=mod GOPROXY=off GOSUMDB=off GOTOOLCHAIN=local
-SCR=$(mktemp -d /tmp/govc-benign.XXXXXX); trap 'rm -rf "$SCR"' EXIT
-fail=0
-for patch in selftest/benign/${ONLY:-}*.patch; do
-  rm -rf "$SCR/repo"; mkdir -p "$SCR/repo"; (cd /repo && git ls-files -z | xargs -0 cp --parents -t "$SCR/repo")
-  (cd "$SCR/repo" && patch -s -p1 < "$OLDPWD/$patch") || { echo "BENIGN-ERROR cannot apply $patch"; fail=1; continue; }
-  (cd "$SCR/repo" && go build ./... ) || { echo "BENIGN-ERROR $patch does not compile"; fail=1; continue; }
+export VERIF_DIR=$(pwd)
+export PROPS="${PROPS:-C01 C02 C03 C04 C05 C06 C07 C08 C09 C10 C11 C12 C13 C14 C15 C16 C19 C20}"
+one() {
+  patch=$1
+  SCR=$(mktemp -d /tmp/govc-benign.XXXXXX); mkdir -p "$SCR/repo"
+  (cd /repo && git ls-files -z | xargs -0 cp --parents -t "$SCR/repo")
+  if ! (cd "$SCR/repo" && patch -s -p1 < "$VERIF_DIR/$patch"); then echo "BENIGN-ERROR cannot apply $patch"; rm -rf "$SCR"; return; fi
+  if ! (cd "$SCR/repo" && go build ./... ); then echo "BENIGN-ERROR $patch does not compile"; rm -rf "$SCR"; return; fi
   bad=""
-  for p in ${PROPS:-C01 C02 C03 C04 C05 C06 C07 C08 C09 C10 C11 C12 C13 C14 C15 C16 C19 C20}; do
-    ./bin/govc -prop $p -tier quick -repo "$SCR/repo" -verif "$(pwd)" -out "$SCR/out" -noreplay >/dev/null 2>&1 || bad="$bad $p"
+  for p in $PROPS; do
+    "$VERIF_DIR/bin/govc" -prop $p -tier quick -repo "$SCR/repo" -verif "$VERIF_DIR" -out "$SCR/out" -noreplay >/dev/null 2>&1 || bad="$bad $p"
   done
-  if [ -z "$bad" ]; then echo "BENIGN-OK    $patch"; else echo "BENIGN-ALARM $patch:$bad"; fail=1; fi
-done
-exit $fail
+  if [ -z "$bad" ]; then echo "BENIGN-OK    $patch"; else echo "BENIGN-ALARM $patch:$bad"; fi
+  rm -rf "$SCR"
+}
+export -f one
+out=$(ls selftest/benign/${ONLY:-}*.patch | xargs -P "${JOBS:-8}" -I{} bash -c 'one {}')
+echo "$out" | sort
+if echo "$out" | grep -q -E "BENIGN-(ALARM|ERROR)"; then exit 1; fi
+exit 0
